@@ -52,7 +52,8 @@ ITERS = 25
 
 def bounds(tier):
     return {'alphabet': [list(map(str, a)) for a in ALPHABET], 'depth': 3 if tier == 'quick' else 4, 'iterations_per_call': ITERS,
-            'configurations': list(ZCONF), 'warm_pairs': '12 ordered pairs x 3 solvers, 1500 iterations'}
+            'configurations': list(ZCONF), 'warm_pairs': '12 ordered pairs x 3 solvers, 1500 iterations',
+            'elim_order_histories': {'orders': [list(o) for o in ELIM_ORDERS], 'lists': list(ELIM_LISTS), 'lengths': '2..3' if tier == 'quick' else '2..4'}}
 
 
 def jobs(tier, seed):
@@ -69,6 +70,10 @@ def jobs(tier, seed):
             out.append({'mode': 'warm', 'l1': l1, 'l2': l2, 'engine': eng, 'seed': seed})
             if eng != 'RDA' or l1 == 'm3':
                 out.append({'mode': 'warm-zeros', 'l1': l1, 'l2': l2, 'engine': eng, 'seed': seed})
+    # estimators constructed with an explicit elimination order (a caller-owned list), 4 attributes, histories that leave attributes unmeasured
+    for oi in range(len(ELIM_ORDERS)):
+        for first in range(len(ELIM_LISTS)):
+            out.append({'mode': 'elim-hist', 'order': oi, 'first': first, 'depth': 2 if tier == 'quick' else 3, 'seed': seed})
     # fixed, seed-independent witness of open finding F15 (mirror descent stalls after a warm start from a boundary optimum)
     out.append({'mode': 'warm-zeros', 'l1': 'm2', 'l2': 'm3', 'engine': 'MD', 'seed': 2, 'witness': 'F15'})
     # fixed witness of open finding F18 (same stall without structural zeros: first call with a supplied total far below the measured mass)
@@ -217,6 +222,39 @@ def run_history(zc, hist, seed, acc=None):
     return fails
 
 
+ELIM_ORDERS = [['A', 'B', 'C', 'D'], ['D', 'B', 'A', 'C'], ('C', 'A', 'D', 'B')]
+ELIM_LISTS = {'empty': [], 'one': [('A',)], 'cycle': [('A', 'B'), ('B', 'C'), ('C', 'D'), ('D', 'A')], 'path': [('B', 'C'), ('C', 'D')], 'cycle-rev': [('D', 'C'), ('C', 'B'), ('B', 'A'), ('A', 'D')]}
+
+
+def run_elim_history(oi, hist, seed):
+    """hist: names of ELIM_LISTS; one estimator given a caller-owned elimination order; the last call is compared with a fresh estimator
+    given an equal order; the caller's order object must still say what it said"""
+    from mbi import Domain, FactoredInference
+    M.deterministic_eigsh()
+    names = list(ELIM_LISTS)
+
+    def one(eng, name, step):
+        prob = M.Problem(M.ATTRS4, M.SIZES4, ELIM_LISTS[name], names.index(name), 'pos', seed, total=70.0, noise_mult=1.0)
+        with M.quiet():
+            return eng.estimate(prob.fresh_measurements(), total=70.0, engine=['MD', 'RDA', 'IG'][(step + oi) % 3])
+    order = copy.deepcopy(ELIM_ORDERS[oi])
+    eng = FactoredInference(Domain(M.ATTRS4, M.SIZES4), iters=15, elim_order=order)
+    fails = []
+    for step, name in enumerate(hist):
+        model = one(eng, name, step)
+    if order != ELIM_ORDERS[oi] or type(order) is not type(ELIM_ORDERS[oi]):
+        fails.append(('inputs-mutated', 'the elimination order passed to the constructor now reads %r (was %r)' % (order, ELIM_ORDERS[oi])))
+    ref = one(FactoredInference(Domain(M.ATTRS4, M.SIZES4), iters=15, elim_order=copy.deepcopy(ELIM_ORDERS[oi])), hist[-1], len(hist) - 1)
+    ts = [t for r in (1, 2) for t in itertools.permutations(M.ATTRS4, r)] + [tuple(M.ATTRS4)]
+    worst = 0.0
+    for t in ts:
+        a, b = np.asarray(model.project(t).values, dtype=float), np.asarray(ref.project(t).values, dtype=float)
+        worst = max(worst, float(np.abs(a - b).max()))
+    if not worst <= 1e-9 * 70.0:
+        fails.append(('history-dependence', 'elim_order=%r: after history %r the model of the last call %r differs from a fresh estimator by %.3g (total 70)' % (ELIM_ORDERS[oi], hist[:-1], hist[-1], worst)))
+    return fails
+
+
 def run_warm_zeros(l1, l2, engine, seed):
     """warm start with structural zeros: the second call must keep the declared cells empty and fit no worse than a cold start"""
     from mbi import Domain, FactoredInference
@@ -284,6 +322,24 @@ def run_warm(l1, l2, engine, seed, tmode='given'):
 
 def run_job(job):
     acc = Acc()
+    if job['mode'] == 'elim-hist':
+        names = list(ELIM_LISTS)
+        acc.states += 1
+        # every history of length 2 .. depth+1 that starts with the job's first list (a state is the history that reaches it)
+        for L in range(1, job['depth'] + 1):
+            for tail in itertools.product(names, repeat=L):
+                h = [names[job['first']]] + list(tail)
+                case = {'mode': 'elim-hist', 'order': job['order'], 'hist': h, 'seed': job['seed']}
+                acc.case(case)
+                acc.states += 1
+                acc.transitions += len(h)
+                acc.traces += 1
+                fails = run_elim_history(job['order'], h, job['seed'])
+                acc.outcome('elim-hist:%s' % ('ok' if not fails else 'FAIL'))
+                for kd in sorted({k for k, _ in fails}):
+                    acc.violate(case, {'kind': kd, 'mode': 'elim-hist'}, '; '.join(m for k, m in fails if k == kd)[:700])
+        acc.sample(case)
+        return acc
     acc.digests_states = set()
     if job['mode'] in ('warm', 'warm-zeros'):
         case = dict(job)
@@ -331,6 +387,8 @@ def replay(case):
             fails, _ = run_warm(case['l1'], case['l2'], case['engine'], case['seed'], case.get('tmode', 'given'))
         else:
             fails, _ = run_warm_zeros(case['l1'], case['l2'], case['engine'], case['seed'])
+    elif case.get('mode') == 'elim-hist':
+        fails = run_elim_history(case['order'], case['hist'], case['seed'])
     else:
         fails = run_history(case['zc'], case['hist'], case['seed'])
     for k, m in fails:
